@@ -481,4 +481,81 @@ def libBinding (k : BKey) (libTag : Nat) (sig : BSig) (hs : List BHdr) : Bool :=
       && h0.cls == sig.cls && h0.typ == sig.typ && !(countLabel h0.name % 256 < sig.labels)
       && equalFold h0.name sig.name && (canonicalName sig.signer).isSuffixOf (canonicalName h0.name)
 
+/-! ## `VerifyDS` (verify.go): which DS sets are bogus, which only unsupported -/
+
+def hexVal (c : UInt8) : Option Nat :=
+  let n := c.toNat
+  if 48 ≤ n ∧ n ≤ 57 then some (n - 48)
+  else if 97 ≤ n ∧ n ≤ 102 then some (n - 87)
+  else if 65 ≤ n ∧ n ≤ 70 then some (n - 55)
+  else none
+
+/-- `hex.DecodeString`: `none` on odd length or a non-hex character. -/
+def hexDecode : Bytes → Option Bytes
+  | [] => some []
+  | [_] => none
+  | a :: b :: t =>
+    match hexVal a, hexVal b, hexDecode t with
+    | some x, some y, some r => some (UInt8.ofNat (x * 16 + y) :: r)
+    | _, _, _ => none
+
+structure DSRec where
+  name : Bytes
+  cls : Nat
+  keyTag : Nat
+  alg : Nat
+  dt : Nat
+  digest : Bytes   -- the Digest field as text
+
+structure DKey where
+  flags : Nat
+  proto : Nat
+  alg : Nat
+  cls : Nat
+  name : Bytes
+  pk : Bytes
+  tag : Nat        -- `KeyTag(key)`
+
+/-- `usableDSCandidate` (the `keyMap[parentDS.KeyTag]` lookup is the tag test). -/
+def usableDSCandidate (limit : Nat) (d : DSRec) (k : DKey) : Bool :=
+  !oversized limit k.pk && k.tag == d.keyTag && k.alg == d.alg && k.cls == d.cls
+    && equalFold k.name d.name && k.proto == 3 && k.flags / 256 % 2 == 1
+
+structure DSState where
+  supported : Nat := 0
+  matched : Bool := false
+
+/-- one iteration of the loop of `verifyDS` (`anchored == nil`: it returns at
+the first DS that authenticates a key); `sup d` is `IsSupportedDS`,
+`dmatch k dt want` is `dsDigestMatches`. -/
+def verifyDSStep (sup : DSRec → Bool) (dmatch : DKey → Nat → Bytes → Bool) (limit : Nat) (keys : List DKey)
+    (st : DSState) (d : DSRec) : DSState :=
+  if st.matched then st
+  else if !sup d then st
+  else
+    let st := { st with supported := st.supported + 1 }
+    let cands := keys.filter (usableDSCandidate limit d)
+    if cands.isEmpty then st
+    else match hexDecode d.digest with
+      | none => st
+      | some want =>
+        if want.isEmpty then st
+        else if cands.any (fun k => dmatch k d.dt want) then { st with matched := true } else st
+
+/-- `VerifyDS`: `(unsupportedOnly, err == nil)`. -/
+def verifyDS (sup : DSRec → Bool) (dmatch : DKey → Nat → Bytes → Bool) (limit : Nat) (keys : List DKey)
+    (dss : List DSRec) : Bool × Bool :=
+  let st := dss.foldl (verifyDSStep sup dmatch limit keys) {}
+  if st.matched then (false, true)
+  else if dss.isEmpty then (false, false)
+  else if st.supported = 0 then (true, false)
+  else (false, false)
+
+/-- a DS that authenticates one of the offered keys. -/
+def dsAuthenticates (sup : DSRec → Bool) (dmatch : DKey → Nat → Bytes → Bool) (limit : Nat) (keys : List DKey)
+    (d : DSRec) : Bool :=
+  sup d && (match hexDecode d.digest with
+    | none => false
+    | some want => !want.isEmpty && (keys.filter (usableDSCandidate limit d)).any (fun k => dmatch k d.dt want))
+
 end SdnsVerif.Model.DnssecPrim
